@@ -22,7 +22,7 @@ from hvsrpy.object_io import write_hvsr_object_to_file, read_hvsr_object_from_fi
 
 from hvmc import alphabets as A
 from hvmc.engine import explorer
-from hvmc.engine.core import bitwise_equal
+from hvmc.engine.core import bitwise_equal, jsonable
 from hvmc.checks import c05, c11
 from hvmc.checks.c05 import _call, _nonan, _same, ACCESSORS
 
@@ -90,14 +90,14 @@ def _trads(o):
 
 def roundtrip(o, kind, ctx, root, hist):
     d0 = _tmpdir()
-    for dmc in DISTS:
+    for dmc, dfn in ((a, b) for a in DISTS for b in DISTS):
         p1 = os.path.join(d0, f"w1_{os.getpid()}.csv")
         p2 = os.path.join(d0, f"w2_{os.getpid()}.csv")
         ctx.count("transitions", 2)
-        detail = dict(hist=list(hist), distribution_mc=dmc)
+        detail = dict(hist=list(hist), distribution_mc=dmc, distribution_fn=dfn)
         snap = copy.deepcopy(o)
         try:
-            write_hvsr_object_to_file(o, p1, distribution_mc=dmc, distribution_fn=dmc)
+            write_hvsr_object_to_file(o, p1, distribution_mc=dmc, distribution_fn=dfn)
         except Exception as e:      # noqa: BLE001
             if kind != "diffuse" and any(_israised(_call(o, acc, (), dmc)) for acc in ("mean_curve", "std_curve")):
                 # the object itself cannot produce its derived curves in this state (e.g. an azimuth
@@ -168,7 +168,7 @@ def roundtrip(o, kind, ctx, root, hist):
             if _rng(a._search_range_in_hz) != _rng(b._search_range_in_hz):
                 ctx.violation(f"C12:{kind}:search-range", root, detail=d2, expected=_rng(a._search_range_in_hz),
                               observed=_rng(b._search_range_in_hz), explanation="search range not restored")
-            if (a._find_peaks_kwargs or {}) != (b._find_peaks_kwargs or {}):
+            if jsonable(a._find_peaks_kwargs or {}) != jsonable(b._find_peaks_kwargs or {}):
                 ctx.violation(f"C12:{kind}:find-peaks-kwargs", root, detail=d2, explanation="find_peaks kwargs not restored")
             pa = [_fe(v) for v in a._main_peak_frq] + [_fe(v) for v in a._main_peak_amp]
             pb = [_fe(v) for v in b._main_peak_frq] + [_fe(v) for v in b._main_peak_amp]
@@ -200,7 +200,7 @@ def roundtrip(o, kind, ctx, root, hist):
                           explanation="the file's std-curve column is not std_curve() of the object written")
         # a second write of the read-back object reproduces the numeric block
         try:
-            write_hvsr_object_to_file(r, p2, distribution_mc=dmc, distribution_fn=dmc)
+            write_hvsr_object_to_file(r, p2, distribution_mc=dmc, distribution_fn=dfn)
             blk2 = _numeric_block(p2)
             if not bitwise_equal(blk, blk2):
                 ctx.violation(f"C12:{kind}:second-write-differs", root, detail=detail,
@@ -254,6 +254,7 @@ class TradSystem(c05.System):
         ops = []
         for r in c05.range_menu(self.freq):
             ops.append(dict(op="U", rng=list(r), kw=None))
+        ops.append(dict(op="U", rng=[None, None], kw={"prominence": 0.3}))
         for n in (0.5, 1, 2):
             ops.append(dict(op="F", n=n, dfn="lognormal", dmc="lognormal", rng=[None, None]))
         for i in range(self.W):
